@@ -265,7 +265,9 @@ func (m *modelReader) values(ts []*Term) bool {
 		return true
 	}
 	if m.runs >= 24 {
-		fmt.Fprintf(m.log, "model too large to read back within the budget of 24 solver runs\n")
+		if !m.failed {
+			fmt.Fprintf(m.log, "model too large to read back within the budget of 24 solver runs\n")
+		}
 		m.failed = true
 		return false
 	}
